@@ -84,6 +84,9 @@ def histories(files, tier):
                 out.append(evs + [(k, f)])                               # duplicated late
                 out.append(evs + [("modified", f)])                      # late modified
                 out.append(evs[:i] + [("tmpmove", f)] + evs[i + 1:])    # finalizing rename instead of creation
+                if i + 1 < len(evs):
+                    # a downstream consumer empties the destination (files and emptied subdirectories) between two events
+                    out.append(evs[: i + 1] + [("consume", "")] + evs[i + 1:])
             for (k, f) in evs:
                 if classify(f) in ("md", "prop"):
                     out.append(evs + [("rewrite_modified", f)])              # in-place update, then its modified event
@@ -173,6 +176,9 @@ def run_job(job):
 
             t2 = float(os.path.basename(rf_files[1]).split("@")[1][:-3])
             start = datetime.datetime.fromtimestamp(t2, tz=datetime.timezone.utc)
+            if method != "move":
+                # the same instant as a naive datetime (which the package reads as UTC) - the process zone is not UTC
+                start = start.replace(tzinfo=None)
             selected = {f for f in files if classify(f) == "prop" or float(os.path.basename(f).split("@")[1][:-3].rstrip(".")) >= t2}
         run_no = 0
         for hist in hists:
@@ -197,7 +203,9 @@ def run_job(job):
                             "mode": crash if crash else None}
                     errs = []
 
-                    def observe(i, what, _src=src, _dest=dest, _errs=errs):
+                    arch = os.path.join(root, "arch%d" % run_no)
+
+                    def observe(i, what, _src=src, _dest=dest, _errs=errs, _arch=arch):
                         # (1) anything under a final destination name is complete and identical to the source version
                         for r_, d_, fs in os.walk(_dest):
                             for f in fs:
@@ -208,7 +216,7 @@ def run_job(job):
                                     _errs.append(({"class": "incomplete_file_under_final_name"}, "at boundary %s (%s): %s" % (i, what, rel)))
                         # (2) every RF file has an intact copy in the source or under the destination (tmp. staging counts)
                         for rel in rf_files:
-                            cands = [os.path.join(_src, rel), os.path.join(_dest, rel),
+                            cands = [os.path.join(_src, rel), os.path.join(_dest, rel), os.path.join(_arch, rel),
                                      os.path.join(_dest, os.path.dirname(rel), "tmp." + os.path.basename(rel))]
                             if not any(os.path.isfile(c) and sha(c) == master_sha[rel] for c in cands) and len(_errs) < 3:
                                 _errs.append(({"class": "rf_file_lost"}, "at boundary %s (%s): no intact copy of %s" % (i, what, rel)))
@@ -229,6 +237,19 @@ def run_job(job):
                         try:
                             for kind, rel in hist:
                                 p = os.path.join(src, rel)
+                                if kind == "consume":
+                                    # (os.replace and the saved originals: the consumer is not the code under test)
+                                    for r_, d_, fs_ in os.walk(dest, topdown=False):
+                                        for f_ in fs_:
+                                            if f_.startswith("tmp."):
+                                                continue
+                                            rel_ = os.path.relpath(os.path.join(r_, f_), dest)
+                                            icp.saved[(os, "makedirs")](os.path.dirname(os.path.join(arch, rel_)), exist_ok=True)
+                                            os.replace(os.path.join(r_, f_), os.path.join(arch, rel_))
+                                        if r_ != dest and not os.listdir(r_):
+                                            icp.saved[(os, "rmdir")](r_)
+                                    part["transitions"] += 1
+                                    continue
                                 if kind == "rewrite_modified":
                                     # the writer updates the file in place: same size, same modification second
                                     if not os.path.exists(p):
@@ -265,6 +286,15 @@ def run_job(job):
                         core.rm(src)
                         core.rm(dest)
                         break  # crash/fault point beyond the last operation: this history is covered
+                    if os.path.isdir(arch):
+                        # what the consumer took away counts as delivered: put it back for the final comparison
+                        for r_, d_, fs_ in os.walk(arch):
+                            for f_ in fs_:
+                                rel_ = os.path.relpath(os.path.join(r_, f_), arch)
+                                if not os.path.exists(os.path.join(dest, rel_)):
+                                    os.makedirs(os.path.dirname(os.path.join(dest, rel_)), exist_ok=True)
+                                    os.replace(os.path.join(r_, f_), os.path.join(dest, rel_))
+                        core.rm(arch)
                     observe("end", "after history")
                     if not crashed and not (fault_mode and cp is not None):
                         errs += end_oracle(method, src, dest, files, selected, cur_sha, hist, rf_files, md_files)
